@@ -8,7 +8,7 @@ use serde_json::json;
 use ta::errors::TaError;
 use ta::{Close, DataItem, High, Low, Open, Volume};
 
-pub const RULE: &str = "EXHAUSTIVE: all 10^5 five-tuples over the lattice {-inf,-2,-1,-0.0,0.0,1,2,3,+inf,NaN} for (open,high,low,close,volume) x all 32 subsets of the five setters (in canonical order); for complete subsets on the 10^3-tuple sub-lattice {-1,0.0,1,2,NaN,...} additionally all 120 setter orders, and programs with repeated setters (the last value must win). RANDOM: 10^6 finite tuples (consistent and inconsistent). Oracle (IEEE comparisons evaluated by the harness): Incomplete iff some setter was never called; else Invalid iff not (l<=o && l<=c && l<=h && h>=o && h>=c && v>=0); else Ok and the five getters return the last value set bit-exactly, clone == item; built items are also fed to one indicator per price trait to tie getters to the Open/High/Low/Close/Volume traits. Every (tuple, subset, order) is a distinct case by construction; non-trivial = all of them (the rule has no trivial cases: each exercises a different branch combination).";
+pub const RULE: &str = "EXHAUSTIVE: all 10^5 five-tuples over the lattice {-inf,-2,-1,-0.0,0.0,1,2,3,+inf,NaN} for (open,high,low,close,volume) x all 32 subsets of the five setters (in canonical order); for complete subsets on the 10^3-tuple sub-lattice {-1,0.0,1,2,NaN,...} additionally all 120 setter orders, and programs with repeated setters (the last value must win). RANDOM: 2*10^6 (quick) / 4*10^7 (thorough) finite tuples (consistent and inconsistent). Oracle (IEEE comparisons evaluated by the harness): Incomplete iff some setter was never called; else Invalid iff not (l<=o && l<=c && l<=h && h>=o && h>=c && v>=0); else Ok and the five getters return the last value set bit-exactly, clone == item; built items are also fed to one indicator per price trait to tie getters to the Open/High/Low/Close/Volume traits. Every (tuple, subset, order) is a distinct case by construction; non-trivial = all of them (the rule has no trivial cases: each exercises a different branch combination).";
 
 pub const LATTICE: [f64; 10] = [f64::NEG_INFINITY, -2.0, -1.0, -0.0, 0.0, 1.0, 2.0, 3.0, f64::INFINITY, f64::NAN];
 
@@ -163,7 +163,7 @@ fn run_lattice(ctx: &Ctx) -> Report {
 }
 
 fn run_random(ctx: &Ctx) -> Report {
-    let total = ctx.pick(1_000_000usize, 5_000_000usize);
+    let total = ctx.pick(2_000_000usize, 40_000_000usize);
     let chunks = 64;
     let seed = ctx.seed;
     let jobs: Vec<usize> = (0..chunks).collect();
